@@ -164,7 +164,7 @@ def run(ctx):
     outcomes = set()
     for case in cases:
         _CASE = case
-        viols, st = pysched.explore(_body_t1, _check_t1, traced, bound, ctx, setup=_setup_t1, max_execs_per_shard=ctx.pick(4000, 300000), max_steps=5000, budget_s=ctx.pick(60, 12))
+        viols, st = pysched.explore(_body_t1, _check_t1, traced, bound, ctx, setup=_setup_t1, max_execs_per_shard=ctx.pick(4000, 300000), max_steps=5000, budget_s=ctx.pick(40, 60))
         ctx.add_violations(viols)
         total["executions"] += st.executions
         total["steps"] += st.steps
